@@ -216,7 +216,9 @@ def dayTable (ctx : Ctx) (e : Expr) (d : Int) : DayTab :=
 /-- the state of minute `m` of day `d` -/
 def dayState (ctx : Ctx) (e : Expr) (d : Int) (m : Nat) : Kind := ((dayTable ctx e d).at m).getD .closed
 
-/-- Known finding D20 (class `D20-dated-window`): the implementation pairs the bounds of a dated
+/-- FORMER known finding D20 (class `D20-dated-window`; repaired in /repo by pairing on the years y-2..y+2,
+after which no case of the class fails any more — the predicate is kept for the record only and is no
+longer consulted by any check): the implementation pairs the bounds of a dated
 range without years by projecting them on the years `y-1..y+1` around the evaluated day; an
 occurrence that is about one year long, or whose bounds are shifted by about a year or more, starts
 or ends outside that window.  The class is decided on the rule alone: some yearless dated range has
